@@ -92,8 +92,9 @@ VM_STUBS_NOTE = ('fuel_vm::constraints::reg_key::split_registers replaced by a s
 
 prop('C21',
      builds=[dict(crate='vm', filters=['c21_'])],
-     default=dict(mem=6, timeout={'quick': 600, 'thorough': 1800}),
-     min_harnesses={'quick': 10, 'thorough': 20},
+     default=dict(mem=6, timeout={'quick': 600, 'thorough': 2400}),
+     overrides=[(r'c21_(div|divi|mod|modi|exp_small|exp_closed|expi_small|mlog|mldv|mul_full|niop_\w+)$', dict(tier='thorough'))],
+     min_harnesses={'quick': 27, 'thorough': 55},
      functions_encoded=['<fuel_asm::op::X as Execute>::execute for each covered opcode (fuel-vm/src/interpreter/executors/opcodes_impl.rs)',
                         'Interpreter::gas_charge / gas::gas_charge', 'interpreter::alu::{alu_capture_overflow, alu_boolean_overflow, alu_error, alu_set, alu_clear}',
                         'interpreter::internal::{inc_pc, set_flag}', 'constraints::reg_key::WriteRegKey::new'],
